@@ -1,6 +1,6 @@
 (* GENERATED on every run by engines/cli_eng.py from crux_cli::codegen::verif::verif_run(crux_time): do not edit. *)
 From Coq Require Import List String NArith.
-From Crux Require Import Cli.Format.
+From Crux Require Import Cli.Format Cli.Pipeline.
 Import ListNotations.
 Open Scope string_scope.
 
@@ -59,5 +59,7 @@ Definition f_root : list item := [i9; i29].
 Definition f_field : edges := [(i1, i13); (i2, i0); (i7, i5); (i7, i6); (i8, i10); (i8, i12); (i11, i30); (i15, i14); (i18, i16); (i18, i17); (i22, i20); (i22, i21); (i25, i23); (i25, i24); (i27, i26); (i32, i31); (i34, i33); (i36, i35); (i38, i37); (i40, i39); (i41, i44); (i41, i45); (i41, i46)].
 Definition f_variant : edges := [(i4, i2); (i4, i3); (i9, i19); (i9, i22); (i9, i25); (i9, i27); (i29, i32); (i29, i34); (i29, i36); (i29, i38)].
 Definition f_type : edges := [(i0, i1); (i10, i11); (i12, i11); (i13, i11); (i20, i11); (i21, i18); (i23, i11); (i24, i15); (i26, i11); (i28, i29); (i31, i18); (i33, i11); (i35, i11); (i37, i11); (i39, i9); (i42, i9); (i43, i40); (i44, i11); (i47, i29)].
+Definition the_dump : dump := mkDump items f_root f_field f_variant f_type.
+Definition crates : list string := ["crux_time"].
 Definition real_containers : list (string * container) := [("Duration", (CStruct [("nanos", (FPrim PU64))])); ("Instant", (CStruct [("seconds", (FPrim PU64)); ("nanos", (FPrim PU32))])); ("Request", (CStruct [("id", (FPrim PU32)); ("effect", (FTypeName "Effect"))])); ("TimeRequest", (CEnum [(0%N, ("now", VUnit)); (1%N, ("notifyAt", (VStruct [("id", (FTypeName "TimerId")); ("instant", (FTypeName "Instant"))]))); (2%N, ("notifyAfter", (VStruct [("id", (FTypeName "TimerId")); ("duration", (FTypeName "Duration"))]))); (3%N, ("clear", (VStruct [("id", (FTypeName "TimerId"))])))])); ("TimeResponse", (CEnum [(0%N, ("now", (VStruct [("instant", (FTypeName "Instant"))]))); (1%N, ("instantArrived", (VStruct [("id", (FTypeName "TimerId"))]))); (2%N, ("durationElapsed", (VStruct [("id", (FTypeName "TimerId"))]))); (3%N, ("cleared", (VStruct [("id", (FTypeName "TimerId"))])))])); ("TimerId", (CNewTypeStruct (FPrim PU64)))].
 Definition real_registry : registry := [("Duration", (CStruct [("nanos", (FPrim PU64))])); ("Instant", (CStruct [("seconds", (FPrim PU64)); ("nanos", (FPrim PU32))])); ("Request", (CStruct [("id", (FPrim PU32)); ("effect", (FTypeName "Effect"))])); ("TimeRequest", (CEnum [(0%N, ("now", VUnit)); (1%N, ("notifyAt", (VStruct [("id", (FTypeName "TimerId")); ("instant", (FTypeName "Instant"))]))); (2%N, ("notifyAfter", (VStruct [("id", (FTypeName "TimerId")); ("duration", (FTypeName "Duration"))]))); (3%N, ("clear", (VStruct [("id", (FTypeName "TimerId"))])))])); ("TimeResponse", (CEnum [(0%N, ("now", (VStruct [("instant", (FTypeName "Instant"))]))); (1%N, ("instantArrived", (VStruct [("id", (FTypeName "TimerId"))]))); (2%N, ("durationElapsed", (VStruct [("id", (FTypeName "TimerId"))]))); (3%N, ("cleared", (VStruct [("id", (FTypeName "TimerId"))])))])); ("TimerId", (CNewTypeStruct (FPrim PU64)))].
